@@ -4,6 +4,7 @@
 -/
 import Nervus.Proofs.EngineC06
 import Nervus.Proofs.StoreRoot
+import Nervus.Proofs.IterFlush
 namespace Nervus.Storage
 open Nervus.GraphSpec (Graph TxOp Op Rel)
 
@@ -102,7 +103,7 @@ theorem Sim.reads (c : Cfg) {s g} (h : Sim s g) : ReadsAgree c s g := by
         · rename_i hh; rw [countOut_eq_visE e s.runs (by rw [hh.1]; exact htomb)]
         · rfl
       refine ⟨(outRuns n rel s.runs [] []).1, ?_, ?_, ?_⟩
-      · unfold Engine.neighbors
+      · rw [neighbors_eq]; unfold Engine.neighborsFlushed
         have : outRuns n rel s.runs [] [] = ((outRuns n rel s.runs [] []).1, some fin) := by
           rw [← hfin]
         rw [this, hG.segs]; simp
@@ -150,7 +151,7 @@ theorem Sim.reads (c : Cfg) {s g} (h : Sim s g) : ReadsAgree c s g := by
         · rename_i hh; rw [countIn_eq_visE e s.runs (by rw [hh.1]; exact htomb)]
         · rfl
       refine ⟨(inRuns n rel s.runs [] []).1, ?_, ?_, ?_⟩
-      · unfold Engine.incoming
+      · rw [incoming_eq]; unfold Engine.incomingFlushed
         have : inRuns n rel s.runs [] [] = ((inRuns n rel s.runs [] []).1, some fin) := by
           rw [← hfin]
         rw [this, hG.segs]; simp
